@@ -397,7 +397,12 @@ def oracle_case(c, deep):
     # the other direction: the reported d must be attained.  The lightest listed logical has weight
     # w_min; if d < w_min and the exhaustive search up to weight d finds no non-trivial logical,
     # no operator of weight d is a non-trivial logical: d understates the distance.
-    if ws and d < min(ws):
+    # ... also when a listed row of weight d is not a non-trivial logical operator at all (e.g. an empty row):
+    # then nothing listed attains d either
+    def _is_logical(v):
+        return not any(symp(inst.n, g, v) for g in inst.H) and any(symp(inst.n, l, v) for l in inst.LX + inst.LZ)
+    attained = any(D.pweight(inst.n, v) == d and _is_logical(v) for v in inst.LX + inst.LZ)
+    if ws and (d < min(ws) or not attained):
         exact = d <= 0 or (d <= 2) or (d == 3 and inst.n <= 150) or (d == 4 and inst.n <= 110)
         if exact and (d <= 0 or lighter_or_equal_none(inst, d)):
             return {'input': {'class': cls, 'size': list(size), 'deform': [deform[0], deform[1]],
